@@ -1,16 +1,15 @@
 SPECIFICATION MCSpec
 CONSTANTS WakeAll = TRUE
  NotifyOnFail = TRUE
- NarrowLock = FALSE
- MaxWriters = 1
- MaxReaders = 2
+ NarrowLock = TRUE
+ MaxWriters = 2
+ MaxReaders = 1
  MaxStores = 2
- MaxCancel = 1
- MaxExpire = 1
- Duties = {d1, d2}
+ MaxCancel = 0
+ MaxExpire = 0
+ Duties = {d1}
  Pks = {p1, p2}
  Vals = {a, b}
-SYMMETRY Sym
 VIEW View
 INVARIANTS Safety NoExpiryReadsCurrent
 PROPERTIES ValueStable MismatchNoChange
